@@ -60,6 +60,7 @@ package gpusharingconfigmap
 //@   props C11
 //@   pure
 //@   ensures result == itoa(arg0)
+//@   ensures len(result) >= 1 && len(result) <= 20     // decimal representation of a 64-bit int
 //@ end
 // generated deep copy: a new object with the same name and namespace
 //@ func (*k8s.io/api/core/v1.ConfigMap).DeepCopy
@@ -72,14 +73,8 @@ package gpusharingconfigmap
 //@   ensures result.Data == nil || fresh(result.Data)
 //@ end
 
-//@ func compareObjectOwners
-//@   props C11
-//@   pure
-//@   loop 1
-//@     invariant true
-//@   loop 2
-//@     invariant true
-//@ end
+// compareObjectOwners has no contract: it is mechanically inferred read-only (its verdict is left open: both branches
+// of patchConfigMap are covered)
 
 // an existing ConfigMap is taken over (owner reference) or kept; with no data to add nothing else changes
 //@ func patchConfigMap
@@ -110,4 +105,46 @@ package gpusharingconfigmap
 //@   ensures [created-configmap-owned-by-the-pod] err == nil && old(cmStored(cmKey(pod.Namespace, configMapName))) == nil ==> len(cmStored(cmKey(pod.Namespace, configMapName)).OwnerReferences) == 1 && cmStored(cmKey(pod.Namespace, configMapName)).OwnerReferences[0].UID == pod.UID && cmStored(cmKey(pod.Namespace, configMapName)).OwnerReferences[0].Kind == "Pod"
 //@   ensures [failure-leaves-store] err != nil ==> cmStored(cmKey(pod.Namespace, configMapName)) == old(cmStored(cmKey(pod.Namespace, configMapName)))
 //@   ensures [only-this-configmap] forall k string :: k != cmKey(pod.Namespace, configMapName) ==> cmStored(k) == old(cmStored(k))
+//@ end
+
+// ---- C19 "admission ... and the binder ... materialise identically": the names of the two ConfigMaps ---------------
+// ONE spec function of (name prefix, kind of the container reference, index) for both sides:
+//   capCMName = <prefix>-<index>      for a regular container,  <prefix>-i<index>  for an init container;
+//   envCMName = <capCMName>-evar.
+// Admission (SetGpuCapabilitiesConfigMapName, called by the webhook's Mutate) names the ConfigMap it mounts into the
+// pod; the binder (ExtractCapabilitiesConfigMapName / ExtractDirectEnvVarsConfigMapName, called by the gpusharing
+// plugin) names the ConfigMap it creates for the persisted pod. Both are proved equal to the same spec function of
+// the prefix stored in the pod's runai/shared-gpu-configmap annotation, hence to each other.
+//@ define cmIndexStr(kind ContainerType, idx int) string = ite(kind == InitContainer, "i" + itoa(idx), itoa(idx))
+//@ define capCMName(prefix string, kind ContainerType, idx int) string = fmt.Sprintf("%s-%s", prefix, cmIndexStr(kind, idx))
+//@ define envCMName(prefix string, kind ContainerType, idx int) string = fmt.Sprintf("%s-evar", capCMName(prefix, kind, idx))
+//@ define hasCMPrefix(pod *v1.Pod) bool = gpuSharingConfigMapAnnotation in pod.Annotations
+//@ define cmPrefix(pod *v1.Pod) string = pod.Annotations[gpuSharingConfigMapAnnotation]
+
+//@ func ExtractCapabilitiesConfigMapName
+//@   props C19 C11
+//@   requires pod != nil && containerRef != nil
+//@   pure
+//@   ensures [error-iff-no-prefix-annotation] (result1 != nil) == !hasCMPrefix(pod)
+//@   ensures [name-is-the-spec-function] result1 == nil ==> result0 == capCMName(cmPrefix(pod), containerRef.Type, containerRef.Index)
+//@   ensures [no-name-on-error] result1 != nil ==> result0 == ""
+//@ end
+//@ func ExtractDirectEnvVarsConfigMapName
+//@   props C19 C11
+//@   requires pod != nil && containerRef != nil
+//@   pure
+//@   ensures [error-iff-no-prefix-annotation] (result1 != nil) == !hasCMPrefix(pod)
+//@   ensures [name-is-the-spec-function] result1 == nil ==> result0 == envCMName(cmPrefix(pod), containerRef.Type, containerRef.Index)
+//@   ensures [no-name-on-error] result1 != nil ==> result0 == ""
+//@ end
+// admission side: the prefix is generated once (random suffix) and stored in the annotation; an existing prefix is
+// reused, so a second mutation (and the binder) sees the same names.
+//@ func SetGpuCapabilitiesConfigMapName
+//@   props C19 C11
+//@   requires pod != nil && containerRef != nil
+//@   modifies pod.Annotations, pod.Annotations[*]
+//@   ensures [prefix-annotation-present] hasCMPrefix(pod)
+//@   ensures [existing-prefix-kept] old(hasCMPrefix(pod)) ==> cmPrefix(pod) == old(cmPrefix(pod))
+//@   ensures [name-is-the-spec-function] result == capCMName(cmPrefix(pod), containerRef.Type, containerRef.Index)
+//@   lemma [binder-extracts-the-same-name] tuple1(ExtractCapabilitiesConfigMapName(pod, containerRef)) == nil && result == tuple0(ExtractCapabilitiesConfigMapName(pod, containerRef))
 //@ end
